@@ -13,6 +13,7 @@
 // output:  R  <id> <variant> <epsbits_out> <pair_ok> <api_eq> <ntri> {a b c}*
 //          EV <id> <variant> <nev> { <tag> <a> <b> <c> }*        (hook only)
 //          PG <id> <variant> <n> { <mesh_idx> <left> <right> }*   (hook only)
+//          HP <id> <n> { pairedHalfedge }*n   (variant 1 only: the hash pairing, compared with the model)
 //          DONE <id>
 // variants: 0 fresh allowConvex=true, 1 fresh allowConvex=false,
 //           2 reused triangulator allowConvex=false, 3 reused allowConvex=true
@@ -118,6 +119,11 @@ int main() {
           << (PairingOk(h) ? 1 : 0) << " " << apiEq << " " << tris.size();
       for (const ivec3& t : tris) out << " " << t[0] << " " << t[1] << " " << t[2];
       out << "\n";
+      if (variant == 1 && h.halfedges.size() <= 6000) {
+        out << "HP " << id << " " << h.halfedges.size();
+        for (const Halfedge& e : h.halfedges) out << " " << e.pairedHalfedge;
+        out << "\n";
+      }
 #ifdef C10_HAVE_HOOK
       size_t nev = 0, npg = 0;
       for (const Ev& e : events) (e.tag == 'G' ? npg : nev)++;
